@@ -455,7 +455,8 @@ func runC04(c *Ctx) {
 		sf := p.Method("sonic", "Timer", "Scheduled")
 		good := false
 		for _, r := range returnsOf(sf) {
-			if bo, ok := strip(r.Results[0]).(*ssa.BinOp); ok && bo.Op == token.EQL && loadOfField(bo.X, stateF) && isConstInt(bo.Y, scheduled) {
+			// the comparison itself, or a named predicate (t.inState(stateScheduled)): read it as a literal
+			if k, eq, ok := enumTest(Lit{Cond: strip(r.Results[0]), Pos: true}, stateF); ok && eq && k == scheduled {
 				good = true
 			}
 		}
@@ -485,9 +486,20 @@ func runC04(c *Ctx) {
 	// ------------------------------------------------------------------------------------------------ R4
 	c.rule("C04-R4", "repetition: re-arm only under !cancelled and after the user callback; Cancel sets the flag on success; ScheduleOnce clears it where a schedule begins; the immediate callback needs a ready timer", 6)
 	{
+		// the repeating wrapper: the closure (of ScheduleRepeating or of a helper it uses) that re-arms through ScheduleOnce
 		var rep *ssa.Function
-		for _, a := range schedRep.AnonFuncs {
-			rep = a
+		for _, fn := range timerFuncs {
+			if fn.Parent() == nil {
+				continue
+			}
+			if len(callsToFn(fn, schedOnce)) > 0 && len(fieldAccesses(fn, cancelledF)) > 0 {
+				rep = fn
+			}
+		}
+		if rep == nil {
+			for _, a := range schedRep.AnonFuncs {
+				rep = a
+			}
 		}
 		if rep == nil {
 			infra("anchor: repeating closure of ScheduleRepeating not found")
